@@ -26,7 +26,7 @@ VERIF = Path(os.environ.get('VERIF_ROOT') or Path(__file__).resolve().parents[1]
 REPO = Path(os.environ.get('FURAX_REPO', '/repo'))
 COQ = VERIF / 'coq'
 THEORIES = COQ / 'theories'
-WORK = VERIF / '.work'
+WORK = Path(os.environ.get('VERIF_WORK_DIR') or (VERIF / '.work'))
 # mutant trials (tools/try_mutant.sh) redirect these so that the committed evidence always comes from /repo itself
 EVIDENCE = Path(os.environ.get('VERIF_EVIDENCE_DIR') or VERIF / 'evidence')
 REPLAYS = Path(os.environ.get('VERIF_REPLAYS_DIR') or VERIF / 'replays')
